@@ -22,6 +22,11 @@ def M.wrap : M → Val → Val
   | .arr co dim dq, t => mk .ArrayDecl co [t, dim, .list dq]
   | .fn co args, t => mk .FuncDecl co [args, t]
 
+def M.coord : M → Option Coord
+  | .ptr _ co => co
+  | .arr co _ _ => co
+  | .fn co _ => co
+
 /-- the chain `ms` (outermost modifier first) around `t` -/
 def chainVal : List M → Val → Val
   | [], t => t
